@@ -53,7 +53,9 @@ def dispatch (prop : String) (kv : List (String × String)) : IO Res := do
   | "C14" => C14.run kv
   | "C08" => C08.run kv
   | "C19" => C19.run kv
-  | "C11" => C11.run kv
+  | "C11" => match get kv "exited" with
+    | some _ => LiveProps.runLive04 kv          -- exiting threads: omitted ⇒ reported (shared with C04)
+    | none => C11.run kv
   | "C03" => C03.run kv
   | "C02" => C02.run kv
   | "C18" => C18.run kv
